@@ -22,13 +22,14 @@ const (
 	ptLinkWait uint8 = 25 // applier waiting for a delayed commit
 	ptIdle     uint8 = 26 // the vacuum goroutine is back at its ticker
 	ptClock    uint8 = 27 // the clock pseudo-thread: picking it advances the fake clock
+	ptInMerge  uint8 = 28 // inside a user merge function called by a column's Apply (write latch and column read lock held)
 	ptMax      uint8 = 32
 )
 
 var pointName = map[uint8]string{
 	1: "BeforeRLock", 2: "BeforeLock", 3: "AfterUnlock", 4: "MidCommit1", 5: "MidCommit2", 6: "MidCommit3",
 	7: "AfterReserve", 8: "KeyChecked", 9: "SnapshotPhase", 10: "IndexBuild",
-	ptStart: "start", ptBetween: "betweenOps", ptInRead: "inRead", ptTxnEdge: "txnEdge", ptLinkWait: "linkWait", ptIdle: "vacuumIdle", ptClock: "clockAdvance",
+	ptStart: "start", ptBetween: "betweenOps", ptInRead: "inRead", ptTxnEdge: "txnEdge", ptLinkWait: "linkWait", ptIdle: "vacuumIdle", ptClock: "clockAdvance", ptInMerge: "inMergeFn",
 }
 
 // Point is where a simulated thread is parked.
@@ -200,7 +201,12 @@ func (s *Sim) foreignArrive(pt Point) {
 	<-v.resume
 }
 
+var dbgPark func(s *Sim, pt Point)
+
 func (s *Sim) park(pt Point) {
+	if dbgPark != nil {
+		dbgPark(s, pt)
+	}
 	s.hits[pt.Kind]++
 	if s.muted[pt.Kind] && pt.Ready == nil && enabledAt(pt) && pt.Kind != ptStart {
 		return
